@@ -131,7 +131,11 @@ def check_property(pid, tier="quick", only_jobs=None, keep=False, seed=0):
                                % (j["name"], len(unk)))
         jf = []
         for o in fl:
-            if o.kind == "unwind":
+            if o.kind == "unwind" and j.get("unreachable_loops") and re.search(j["unreachable_loops"], o.name):
+                # this job's contract says these loops are not reached at all
+                # for its input class: reaching one is a violation, not a tool limit
+                o.desc = "[%s] loop reached: %s" % (",".join(j["props"]), o.desc)
+            elif o.kind == "unwind":
                 tool_errors.append("%s: %s %s - a loop is covered neither by a contract nor by "
                                    "its recorded constant bound" % (j["name"], o.name, o.desc))
                 continue
